@@ -107,3 +107,27 @@ Theorem C04_src_parblock_copy_reports_every_thread : forall walk disp,
 Proof. exact x_parblock_copy_ok_iff. Qed.
 Print Assumptions C04_src_parfile_copy_reports_every_thread.
 Print Assumptions C04_src_parblock_copy_reports_every_thread.
+
+(* ---- the worker loops, translated: every kind of operation returns its failure from the worker (Copy and Link also send
+   an Error update; a special file's only report is the worker's result), and nothing else happens on a failure path ---- *)
+Theorem C04_src_every_failure_is_returned :
+  forall routes, List.In routes [x_parfile_error_routes; x_parblock_error_routes] ->
+  List.map fst routes = [0; 1; 2]%N /\ forall k r, List.In (k, r) routes -> List.In 2%N r /\ ~ List.In 99%N r.
+Proof. exact x_every_failure_is_returned. Qed.
+Print Assumptions C04_src_every_failure_is_returned.
+(* ---- main(), translated (the update loop and the join): an Error update anywhere in the stream makes the exit status
+   non-zero whatever the driver thread returns — the only report of a failed block job of parblock ---- *)
+Theorem C04_src_error_update_reaches_exit : forall s1 e s2 handle,
+  x_main_collect (s1 ++ XuError e :: s2) handle <> None.
+Proof. exact x_error_update_reaches_exit. Qed.
+Theorem C04_src_exit_status : forall stats handle,
+  x_main_collect stats handle = None <-> has_error stats = false /\ handle = None.
+Proof. exact x_main_collect_ok_iff. Qed.
+Print Assumptions C04_src_error_update_reaches_exit.
+Print Assumptions C04_src_exit_status.
+(* ---- end to end, from the translated pieces: a worker that returned an error — first, last or in between — makes
+   the process exit status non-zero, whatever the updates ---- *)
+Theorem C04_src_parfile_worker_error_reaches_exit : forall stats walk ws1 e ws2,
+  x_main_collect stats (x_parfile_copy_result walk (ws1 ++ Some e :: ws2)) <> None.
+Proof. exact x_parfile_worker_error_reaches_exit. Qed.
+Print Assumptions C04_src_parfile_worker_error_reaches_exit.
